@@ -94,22 +94,6 @@ Section KholawPaths.
     Bip32Path.derive_path_str Bip32Kholaw.node Bip32Kholaw.n_depth kh_ckd n s.
 End KholawPaths.
 
-(* ---- the Khovratovich-Law derivator as property C14 demands it ----
-   Bip32KholawEd25519KeyDerivator._NewPrivateKeyLeftPart renders 8*zL + kL in 32 bytes; for a parent key with
-   kL >= 2^256 - 2^227 (accepted by FromPrivateKey / FromExtendedKey) int.to_bytes overflows and OverflowError escapes
-   (finding C14-KHOLAW-OVERFLOW; Model/Bip32Kholaw.v models that faithfully, Props/C14.v kholaw_child_key_refuted).
-   The property demands a library error: the child that does not fit is discarded with Bip32KeyError, like the child that
-   is a multiple of the group order.  Everything else is the derivator of Model/Bip32Kholaw.v. *)
-Definition kh_new_left_conformant (zl kl : list N) : res (list N) :=
-  let prvl := Bip32Kholaw.zl8 zl + le_to_int kl in
-  guard (negb (prvl mod ed_curve_order =? 0)) else (LibError Bip32KeyError) ;;
-  guard (prvl <? 256 ^ N.of_nat (kh_priv_len / 2)) else (LibError Bip32KeyError) ;;
-  int_to_le_fixed (kh_priv_len / 2) prvl.
-Definition kh_derivator_conformant (G : Type) (gmul : N -> G -> G) (gbase : G) (g_is_zero : G -> bool) (penc : G -> list N)
-    : Bip32Kholaw.derivator :=
-  Bip32Kholaw.mk_derivator (Bip32Kholaw.ser_index kh_index_little) kh_new_left_conformant Bip32Kholaw.kh_new_right
-                           (Bip32Kholaw.kh_pub_scalar_mul G gmul gbase g_is_zero penc).
-
 (* ================================================================== Byron: HD path decryption, library-faithful *)
 (* AdaByronAddrDecoder.DecryptHdPath(bytes, key) = Bip32Path(CborIndefiniteLenArrayDecoder.Decode(ChaCha20Poly1305.Decrypt(..)), True).
    Differs from AddrAdaByron.decrypt_path (the C18 model, which refuses every head the encoder never produces) in
